@@ -23,6 +23,7 @@ import (
 //vp:all stub (*github.com/go-jose/go-jose/v4/jwt.NestedJSONWebToken).Decrypt = vpDecrypt
 //vp:all stub (*golang.org/x/oauth2.Config).TokenSource = vpTokenSource
 //vp:all stub (*github.com/coreos/go-oidc/v3/oidc.Provider).UserInfo = vpUserInfo
+//vp:all stub (*github.com/coreos/go-oidc/v3/oidc.UserInfo).Claims = vpUserInfoClaims
 //vp:all stub (*github.com/coreos/go-oidc/v3/oidc.Provider).Verifier = vpProviderVerifier
 //vp:all stub (*github.com/coreos/go-oidc/v3/oidc.IDTokenVerifier).Verify = vpOfflineVerify
 //vp:all stub time.Now = vpNow
@@ -630,4 +631,17 @@ func vpEncrypted(enc jose.Encrypter) jwt.Builder {
 func vpSignedAndEncrypted(sig jose.Signer, enc jose.Encrypter) jwt.NestedBuilder {
 	vpMintKind = 3
 	return vpNestedBuilder{}
+}
+
+
+// UserInfo.Claims: the identity provider's answer as a JSON object. Besides "sub" it names the user the
+// way THIS provider does (preferred_username): that need not be the string the gateway put into the
+// cookie's subject (the download endpoint may have split off the domain, and "sub" is often an opaque id).
+func vpUserInfoClaims(u *oidc.UserInfo, v interface{}) error {
+	m, ok := v.(*map[string]interface{})
+	if !ok {
+		vpUnsupported("UserInfo.Claims into something else than *map[string]interface{}")
+	}
+	*m = map[string]interface{}{"sub": u.Subject, "preferred_username": vpStringN("idp-user-name", 2)}
+	return nil
 }
